@@ -16,7 +16,6 @@ import (
 	"fmt"
 	"math"
 	"os"
-	"runtime/debug"
 	"runtime/pprof"
 	"sort"
 	"strings"
@@ -669,9 +668,12 @@ func describeJobs(p param, jobs []job) string {
 	return strings.Join(parts, "; ")
 }
 
+// ballast: never touched (so never resident); it raises the heap goal so that the GC runs once per ~0.5 GB of
+// allocation instead of once per few MB (the live heap is tiny while every diff allocates its result lists).
+var ballast []byte
+
 func body(c *vk.Ctx) {
-	// the live heap is a few MB while every diff allocates its result lists: collect by heap size, not by growth ratio
-	debug.SetGCPercent(400)
+	ballast = make([]byte, 512<<20)
 	if pf := os.Getenv("C07_PROF"); pf != "" {
 		f, _ := os.Create(pf)
 		pprof.StartCPUProfile(f)
